@@ -93,6 +93,7 @@ func runE(t *testing.T, job *Job, res *Result, spec *ESpec) {
 			v   Violation
 		}
 		var viols []caseViol
+		current := -1 // the case being run (a case that never returns is a hang of the code under test)
 		sc := &Scenario{Name: spec.Prop + " batch", Horizon: 15 * time.Minute, Log: spec.Log}
 		sc.Run = func(w *World) {
 			if spec.Setup != nil {
@@ -102,10 +103,12 @@ func runE(t *testing.T, job *Job, res *Result, spec *ESpec) {
 				}
 			}
 			for _, i := range idxs {
+				current = i
 				for _, v := range spec.Cases[i].Run(w) {
 					viols = append(viols, caseViol{i, v})
 				}
 			}
+			current = -1
 		}
 		sc.Check = func(w *World) []Violation {
 			var vs []Violation
@@ -116,7 +119,10 @@ func runE(t *testing.T, job *Job, res *Result, spec *ESpec) {
 		}
 		sc.Outcome = func(w *World) string { return "" }
 		r := runScenario(t, spec.Prop, sc, nil, false)
-		if r.Infra != "" {
+		if r.Infra != "" && current >= 0 && strings.Contains(r.Infra, "did not finish within its horizon") {
+			// the case never returned: the request or command it issued hangs (15 virtual minutes)
+			viols = append(viols, caseViol{current, Violation{spec.Prop, "hang: case never finished", fmt.Sprintf("%s: not finished after 15 virtual minutes", spec.Cases[current].Name)}})
+		} else if r.Infra != "" {
 			g.Infra = append(g.Infra, fmt.Sprintf("batch starting at case %q: %s", spec.Cases[idxs[0]].Name, r.Infra))
 		}
 		for _, i := range idxs {
